@@ -54,15 +54,25 @@ def main():
     # 3. existing tests of the touched crates with the change (demonstration removed)
     subprocess.check_call(["git", "-C", wt, "clean", "-fdq", "-e", "target"])
     pk = " ".join(f"-p {c}" for c in crates)
-    rc, log = sh(f"cargo nextest run {pk} --offline --no-fail-fast", wt, timeout=5400)
+    cfg = os.path.join(os.path.dirname(os.path.abspath(__file__)), "nextest.toml")
+    for attempt in range(3):
+        rc, log = sh(f"cargo nextest run {pk} --offline --no-fail-fast --config-file {cfg}", wt, timeout=5400)
+        # another session's `pkill` occasionally takes our test processes with it: run again
+        if "due to signal" not in log and "SIGTERM [" not in log and "SIGKILL [" not in log:
+            break
     open(os.path.join(d, "verify_suite.log"), "w").write(log[-60000:])
-    m = re.search(r"Summary \[.*?\]\s+(\d+) tests run: (\d+) passed(?: \(.*?\))?(?:, (\d+) failed)?", log)
-    failed = sorted(set(re.findall(r"^\s+FAIL \[.*?\] \(\s*\d+/\d+\) (\S+) (\S+)$", log, re.M)))
+    m = re.search(r"Summary \[.*?\]\s+(\d+) tests run: (\d+) passed(?: \(.*?\))?(?:, (\d+) (?:failed|timed out))*", log)
+    failed = sorted(set(re.findall(r"^\s+(?:FAIL|TIMEOUT|SIGTERM|SIGKILL) \[.*?\] \(\s*\d+/\d+\) (\S+) (\S+)$", log, re.M)))
     out["suite_first_run"] = m.group(0) if m else f"no summary (rc={rc})"
     still = []
     for binary, test in failed:
-        rc2, _ = sh(f"cargo nextest run {pk} --offline -E 'test(={test})'", wt, timeout=1200)
-        if rc2 != 0:
+        ok = False
+        for _ in range(3):
+            rc2, _ = sh(f"cargo nextest run {pk} --offline --config-file {cfg} -E 'test(={test})'", wt, timeout=1200)
+            if rc2 == 0:
+                ok = True
+                break
+        if not ok:
             still.append(f"{binary} {test}")
     out["suite_failed_first_run"] = [f"{b} {t}" for b, t in failed]
     out["suite_failed_after_rerun_alone"] = still
